@@ -397,6 +397,9 @@ class Engine(Interp):
                     return outs
             except Unsupported as e:
                 ctx.emit("unsupported", fn=fr.inst.name, where=fr.body.span_of(bi), what=f"model {m.__name__}: {e}")
+            except (KeyError, TypeError, AttributeError, IndexError, ValueError) as e:
+                # a model met a value shape it was not written for: the call is treated as not modelled (never as a pass)
+                ctx.emit("unsupported", fn=fr.inst.name, where=fr.body.span_of(bi), what=f"model {m.__name__} failed: {type(e).__name__}: {e}")
         if callee.has_body and callee.body is not None and not (ctx.no_inline and ctx.no_inline(callee)):
             inline = callee.local or callee.nblocks <= 14 or (ctx.hooks.get("inline") and ctx.hooks["inline"](callee))
             if inline and ctx.stack.count(callee.id) < ctx.hooks.get("rec_depth", 1) and len(ctx.stack) < ctx.max_depth:
